@@ -91,6 +91,24 @@ func GenC14Case(seed uint64, idx int) C14Case {
 		binding := []string{"_, v", "k, v", "kk, v"}[r.Intn(3)]
 		sel := []string{"m", `"/m"`}[r.Intn(2)]
 		e := fmt.Sprintf("%s %s as %s { %s }", op, sel, binding, body)
+		if r.Chance(0.15) {
+			// two quantifiers joined by and/or: the second one never errors and is
+			// decisive on its own, so the outcome hangs on the first one being
+			// evaluated first and completely
+			if r.Chance(0.5) {
+				e = fmt.Sprintf(`( %s ) or ( any %s as kx, _ { kx != "" } )`, e, sel)
+			} else {
+				e = fmt.Sprintf(`( %s ) and ( all %s as kx, _ { kx == "" } )`, e, sel)
+			}
+			if r.Chance(0.3) {
+				e = "not ( " + e + " )"
+			}
+			c.Obj = ObjSpec{Kind: "evaluator", Expr: e}
+			if fam == "poison" {
+				c.Obj.Opts.Hook = "poison"
+			}
+			return c
+		}
 		switch r.Intn(7) {
 		case 0:
 			e = "not ( " + e + " )"
